@@ -200,13 +200,11 @@ Theorem eff_set_snubbed v c h h' : set_snubbed v c h = Ok h' -> eff 0 h h'.
 Proof. unfold set_snubbed. destruct (cs_s _); [intros H; inversion H; apply eff_refl|].
   destruct (cs_u _).
   - destruct (slot v c true _) as [[h1 r]|] eqn:S; [|discriminate]. simpl.
-    destruct (recv_unchoke (-1) h1) as [h2|] eqn:R; [|discriminate]. destruct (connection_unqueued c h2) as [h3|] eqn:U; [|discriminate].
-    intros H; inversion H; subst.
+    destruct (recv_unchoke (-1) h1) as [h2|] eqn:R; [|discriminate]. intros U.
     eapply eff_eq; [eapply eff_trans; [apply (eff_updcs c (set_s true))|eapply eff_trans; [eapply eff_slot; eauto|
-      eapply eff_trans; [eapply eff_recv_unchoke; eauto|eapply eff_trans; [eapply eff_connection_unqueued; eauto|apply eff_updcs]]]]|reflexivity].
-  - destruct (negb _); [intros H; inversion H; apply eff_updcs|].
-    destruct (connection_unqueued c _) eqn:U; [|discriminate]. intros H; inversion H; subst.
-    eapply eff_eq; [eapply eff_trans; [apply (eff_updcs c (set_s true))|eapply eff_trans; [eapply eff_connection_unqueued; eauto|apply eff_updcs]]|reflexivity]. Qed.
+      eapply eff_trans; [eapply eff_recv_unchoke; eauto|eapply eff_connection_unqueued; eauto]]]|reflexivity].
+  - destruct (negb _); [intros H; inversion H; apply eff_updcs|]. intros U.
+    eapply eff_eq; [eapply eff_trans; [apply (eff_updcs c (set_s true))|eapply eff_connection_unqueued; eauto]|reflexivity]. Qed.
 
 Theorem eff_set_not_snubbed v c h h' : set_not_snubbed v c h = Ok h' -> eff 0 h h'.
 Proof. unfold set_not_snubbed. destruct (negb (cs_s _)); [intros H; inversion H; apply eff_refl|].
